@@ -102,6 +102,9 @@ func hasAllTx(c *dbft.Context[H], req dbft.ConsensusPayload[H]) bool {
 
 // monBroadcast: C03, C04, C07 on every own broadcast of a trusted node.
 func (n *Node) monBroadcast(p *Payload) {
+	if n.earlierLife {
+		return
+	}
 	w := n.w
 	c := n.ctx()
 	m := n.monFor(c.BlockIndex)
